@@ -6,6 +6,7 @@ EXTENDS ChunkVec
 CONSTANTS FullLevels,   \* levels (1 = first command) at which the full grid is used
           MedLevels,    \* levels at which the medium grid is used
           TinyLevels,   \* levels at which the tiny grid is used; all other levels: small grid
+          AliasLevels,  \* levels at which only whole-vector set_slice commands are issued
           XOffs,        \* extra write offsets of the full grid (around the word size when W = 32)
           XLens,        \* extra write lengths of the full grid
           MaxLen        \* cap on offset+length of any write
@@ -46,8 +47,16 @@ MedP ==
      alens |-> {2}, akinds |-> {"conc", "sym"},
      slices |-> {<<2, 1, 1, 4>>, <<1, 1, 0, 3>>}, copies |-> {<<2, 1>>}, maxlen |-> MaxLen]
 
+\* only set_slice(off, off+len(w), w) with a whole live vector w: where it lands exactly on one existing
+\* chunk this is the case of the former finding bytevec-aligned-nested-alias
+AliasP ==
+    [wv |-> Vecs, offs |-> 0..4, lens |-> {}, kinds |-> {"vec"}, srcs |-> {},
+     boffs |-> {}, bkinds |-> {}, woffs |-> {}, wkinds |-> {},
+     alens |-> {}, akinds |-> {}, slices |-> {}, copies |-> {}, maxlen |-> MaxLen]
+
 ProfByLevel(l) ==
-    IF l \in FullLevels THEN FullP
+    IF l \in AliasLevels THEN AliasP
+    ELSE IF l \in FullLevels THEN FullP
     ELSE IF l \in MedLevels THEN MedP
     ELSE IF l \in TinyLevels THEN TinyP
     ELSE SmallP
